@@ -126,4 +126,163 @@ theorem refLogProb_error_iff (cfg : DistCfg Value Scores) (v : Value) (e : DistE
     cases b <;> cases hv : cfg.valid v <;> cases hemp : cfg.isEmpty v <;>
       cases hr : cfg.raises v <;> cases e <;> simp
 
+/-! ## The caller's tensors: the aliasing object without in-place edits is the value store -/
+
+/-- The script never edits a tensor in place: every `sample` / `setValue` names a tensor number
+that is not in use, and there is no `editScores`. -/
+def NoInPlace : List (Nat × Value) → List (CallOp Value Scores) → Prop
+  | _, [] => True
+  | heap, .sample r _ d _ :: ops => heap.lookup r = none ∧ NoInPlace ((r, d) :: heap) ops
+  | heap, .setValue r v :: ops => heap.lookup r = none ∧ NoInPlace ((r, v) :: heap) ops
+  | heap, .logProb _ :: ops => NoInPlace heap ops
+  | _, .editScores _ _ :: _ => False
+  | heap, .clearCache :: ops => NoInPlace heap ops
+
+/-- The cache of the aliasing object read as a value store: what its pointers point to now. -/
+def absCache (st : AliasState Value Scores) : DistCache Value Scores :=
+  ⟨st.samples.bind fun c => st.heap.lookup c, st.logProbs.map (·.2)⟩
+
+/-- `_samples_cache` points to a tensor the caller holds. -/
+def AliasWF (st : AliasState Value Scores) : Prop :=
+  ∀ c, st.samples = some c → st.heap.lookup c ≠ none
+
+theorem lookup_cons_of_fresh (heap : List (Nat × Value)) (r : Nat) (v : Value)
+    (samples : Option Nat) (hr : heap.lookup r = none)
+    (hwf : ∀ c, samples = some c → heap.lookup c ≠ none) :
+    (samples.bind fun c => ((r, v) :: heap).lookup c) = samples.bind fun c => heap.lookup c := by
+  cases samples with
+  | none => rfl
+  | some c =>
+    have hc := hwf c rfl
+    have hne : (c == r) = false := by
+      cases h : c == r
+      · rfl
+      · have : c = r := by simpa using h
+        subst this
+        exact absurd hr hc
+    simp [List.lookup_cons, hne]
+
+theorem wf_cons (heap : List (Nat × Value)) (r : Nat) (v : Value) (samples : Option Nat)
+    (hwf : ∀ c, samples = some c → heap.lookup c ≠ none) :
+    ∀ c, samples = some c → ((r, v) :: heap).lookup c ≠ none := by
+  intro c hc
+  rw [List.lookup_cons]
+  cases h : c == r
+  · simpa using hwf c hc
+  · simp
+
+/-- Without in-place edits the aliasing object and the value store answer alike (simulation). -/
+theorem runAliased_eq_runDist [DecidableEq Value] (cfg : DistCfg Value Scores) :
+    ∀ (ops : List (CallOp Value Scores)) (st : AliasState Value Scores),
+      AliasWF st → NoInPlace st.heap ops →
+      runAliased cfg st ops = runDist false cfg (absCache st) (resolveCalls st.heap ops)
+  | [], _, _, _ => rfl
+  | .sample r e d w :: ops, st, hwf, hn => by
+    obtain ⟨hr, hn⟩ := hn
+    simp only [runAliased, resolveCalls, runDist, sampleStep]
+    cases he : e
+    · cases hc : cfg.cacheSamples
+      · simp only [Bool.false_or, Bool.not_false, if_true, Bool.false_eq_true, if_false]
+        have := runAliased_eq_runDist cfg ops { st with heap := (r, d) :: st.heap }
+          (wf_cons st.heap r d st.samples hwf) hn
+        rw [this]
+        congr 1
+        simp only [absCache]
+        rw [lookup_cons_of_fresh st.heap r d st.samples hr hwf]
+      · simp only [Bool.false_or, Bool.not_true, Bool.false_eq_true, if_false, if_true]
+        have := runAliased_eq_runDist cfg ops
+          { st with heap := (r, d) :: st.heap, samples := some r,
+                    logProbs := some (st.nextId, w), nextId := st.nextId + 1 }
+          (by intro c hc; simp only [Option.some.injEq] at hc; subst hc; simp) hn
+        rw [this]
+        congr 1
+        simp [absCache, List.lookup_cons]
+    · simp only [Bool.true_or, if_true]
+      have := runAliased_eq_runDist cfg ops { st with heap := (r, d) :: st.heap }
+        (wf_cons st.heap r d st.samples hwf) hn
+      rw [this]
+      congr 1
+      simp only [absCache]
+      rw [lookup_cons_of_fresh st.heap r d st.samples hr hwf]
+  | .setValue r v :: ops, st, hwf, hn => by
+    obtain ⟨hr, hn⟩ := hn
+    simp only [runAliased, resolveCalls]
+    have := runAliased_eq_runDist cfg ops { st with heap := (r, v) :: st.heap }
+      (wf_cons st.heap r v st.samples hwf) hn
+    rw [this]
+    congr 1
+    simp only [absCache]
+    rw [lookup_cons_of_fresh st.heap r v st.samples hr hwf]
+  | .logProb r :: ops, st, hwf, hn => by
+    simp only [runAliased, resolveCalls]
+    cases hl : st.heap.lookup r with
+    | none => exact runAliased_eq_runDist cfg ops st hwf hn
+    | some v =>
+      simp only [runDist]
+      have key : (aliasLogProb cfg st v r).1 = (logProbStep false cfg (absCache st) v).1 ∧
+          absCache (aliasLogProb cfg st v r).2 = (logProbStep false cfg (absCache st) v).2 ∧
+          (aliasLogProb cfg st v r).2.heap = st.heap ∧ AliasWF (aliasLogProb cfg st v r).2 := by
+        have habs : (absCache st).samples = st.samples.bind fun c => st.heap.lookup c := rfl
+        cases h1 : (validating cfg.validateArgs && !cfg.valid v)
+        · cases h2 : cfg.isEmpty v
+          · cases h4 : cfg.cacheSamples
+            · cases h5 : cfg.raises v
+              · refine ⟨?_, ?_, ?_, ?_⟩ <;>
+                  simp only [aliasLogProb, logProbStep, habs, h1, h2, h4, h5, Bool.false_and,
+                    Bool.false_eq_true, if_false]
+                · rfl
+                · exact hwf
+              · refine ⟨?_, ?_, ?_, ?_⟩ <;>
+                  simp only [aliasLogProb, logProbStep, habs, h1, h2, h4, h5, Bool.false_and,
+                    Bool.false_eq_true, if_false, if_true]
+                · rfl
+                · exact hwf
+            · cases hd : decide ((st.samples.bind fun c => st.heap.lookup c) = some v)
+              · cases h5 : cfg.raises v
+                · refine ⟨?_, ?_, ?_, ?_⟩ <;>
+                    simp only [aliasLogProb, logProbStep, habs, h1, h2, h4, h5, hd, Bool.true_and,
+                      Bool.false_eq_true, if_false, if_true]
+                  · simp [absCache, hl]
+                  · intro c hc
+                    simp only [Option.some.injEq] at hc
+                    subst hc
+                    simp [hl]
+                · refine ⟨?_, ?_, ?_, ?_⟩ <;>
+                    simp only [aliasLogProb, logProbStep, habs, h1, h2, h4, h5, hd, Bool.true_and,
+                      Bool.false_eq_true, if_false, if_true]
+                  · rfl
+                  · exact hwf
+              · cases hlp : st.logProbs with
+                | none =>
+                  have hal : (absCache st).logProbs = none := by simp [absCache, hlp]
+                  refine ⟨?_, ?_, ?_, ?_⟩ <;>
+                    simp only [aliasLogProb, logProbStep, habs, hal, hlp, h1, h2, h4, hd,
+                      Bool.true_and, Bool.false_eq_true, if_false, if_true]
+                  · simp [absCache, hlp]
+                  · exact hwf
+                | some il =>
+                  have hal : (absCache st).logProbs = some il.2 := by simp [absCache, hlp]
+                  refine ⟨?_, ?_, ?_, ?_⟩ <;>
+                    simp only [aliasLogProb, logProbStep, habs, hal, hlp, h1, h2, h4, hd,
+                      Bool.true_and, Bool.false_eq_true, if_false, if_true]
+                  · simp [absCache, hlp]
+                  · exact hwf
+          · refine ⟨?_, ?_, ?_, ?_⟩ <;>
+              simp only [aliasLogProb, logProbStep, habs, h1, h2, Bool.false_eq_true, if_false, if_true]
+            · rfl
+            · exact hwf
+        · refine ⟨?_, ?_, ?_, ?_⟩ <;>
+            simp only [aliasLogProb, logProbStep, habs, h1, if_true]
+          · rfl
+          · exact hwf
+      obtain ⟨k1, k2, k3, k4⟩ := key
+      rw [k1, runAliased_eq_runDist cfg ops _ k4 (by rw [k3]; exact hn), k2, k3]
+  | .editScores _ _ :: _, _, _, hn => by cases hn
+  | .clearCache :: ops, st, _, hn => by
+    simp only [runAliased, resolveCalls, runDist]
+    have := runAliased_eq_runDist cfg ops { st with samples := none, logProbs := none }
+      (by intro c hc; cases hc) hn
+    rw [this]
+    rfl
+
 end PdtVerif.SeqScore
